@@ -83,6 +83,7 @@ def sim_read(fd, n):
     k = _k.K
     try:
         r = os.read(fd, n)
+        k.progress += 1
         k.point("read")
         return r
     except BlockingIOError:
@@ -97,7 +98,9 @@ def sim_read(fd, n):
         while True:
             k.block(_rd_ready(d), None, "rdwait")
             try:
-                return os.read(d, n)
+                r = os.read(d, n)
+                k.progress += 1
+                return r
             except BlockingIOError:
                 continue
     finally:
@@ -112,6 +115,7 @@ def sim_write(fd, data):
         return os.write(fd, data)
     try:
         r = os.write(fd, data)
+        k.progress += 1
         if r < len(data):
             STATS["wr_partial"] += 1
         k.point("write")
@@ -130,11 +134,13 @@ def sim_write(fd, data):
         while True:
             k.block(_wr_ready(d), None, "wrwait")
             try:
+                k.progress += 1
                 return os.write(d, data)
             except BlockingIOError:
                 # select() says writable only when PIPE_BUF bytes fit; try a smaller write
                 if len(data) > 1:
                     try:
+                        k.progress += 1
                         return os.write(d, data[: max(1, min(len(data), 512))])
                     except BlockingIOError:
                         pass
